@@ -561,6 +561,7 @@ fn spawn_worker(
             &from_round.to_string(),
         ])
         .env("NO_COLOR", "1")
+        .env("GV_SCRATCH_ROOT", scratch_root())
         .stdin(Stdio::null())
         .stdout(Stdio::piped())
         .stderr(Stdio::piped())
@@ -632,8 +633,24 @@ struct ShardState {
     restarts: u32,
 }
 
+/// Scratch files of this run's workers live under one directory that the parent removes at the
+/// end, also when a worker was killed or aborted and could not clean up after itself.
+fn scratch_root() -> PathBuf {
+    std::env::temp_dir().join(format!("gv-run-{}", std::process::id()))
+}
+
+struct RemoveScratchRoot;
+
+impl Drop for RemoveScratchRoot {
+    fn drop(&mut self) {
+        let _ = std::fs::remove_dir_all(scratch_root());
+    }
+}
+
 pub fn parent_main(def: &CheckDef, tier: Tier, seed: u64) -> i32 {
     let t0 = Instant::now();
+    let _ = std::fs::create_dir_all(scratch_root());
+    let _remove_scratch = RemoveScratchRoot;
     if def.needs_cli {
         if let Err(e) = crate::cli::ensure_built() {
             eprintln!("harness error: {e}");
